@@ -128,6 +128,33 @@ def run(ctx):
                     try_get(ctx, st, arr, k)
                     ctx.case(["2d", cls.__name__, h, w, mindex.describe_key(k)], nontrivial=st.last_verdict == "judged")
                     ctx.count("c13.huge_bounds")
+    # larger shapes, sampled keys (the code has no size-dependent case, a change could introduce one)
+    big = [(6, 9), (9, 6), (7, 7), (1, 13), (13, 1), (8, 10), (16, 17), (33, 2)]
+    for k, (h, w) in enumerate(big):
+        if not ctx.mine(k):
+            continue
+        for arr in (s.bool_array((h, w)), s.int_array((h, w), 0, 1)):
+            arr.flatten()
+            arr.reshape((w, h))
+            m = max(h, w) + 3
+            for _ in range(1500 if not thorough else 20000):
+                def comp(n):
+                    if rng.random() < 0.35:
+                        return rng.randint(-n - 2, n + 1)
+                    return slice(rng.choice([None, rng.randint(-m, m)]), rng.choice([None, rng.randint(-m, m)]),
+                                 rng.choice([None, 1, -1, 2, -2, 3, -3, 5, -7, m, -m]))
+                key = (comp(h), comp(w)) if rng.random() < 0.8 else comp(h)
+                try_get(ctx, st, arr, key)
+                ctx.case(["2d-big", type(arr).__name__, h, w, mindex.describe_key(key)], nontrivial=st.last_verdict == "judged")
+            for _ in range(60):
+                lst = [(rng.randint(-h - 1, h), rng.randint(-w - 1, w)) for _ in range(rng.randint(0, 5))]
+                try_get(ctx, st, arr, lst)
+            ctx.count("c13.big_shapes")
+    for n in (9, 17, 40):
+        a1 = s.bool_array(n)
+        for _ in range(300):
+            try_get(ctx, st, a1, slice(rng.choice([None, rng.randint(-n - 3, n + 3)]), rng.choice([None, rng.randint(-n - 3, n + 3)]), rng.choice([None, 1, -1, 2, -3, 7])))
+            try_get(ctx, st, a1, rng.randint(-n - 2, n + 1))
     realistic_stage(ctx, thorough)
     ctx.sample({"shape": [2, 4], "key": ["tuple", 0, ["slice", 10, None, -1]], "list_model": "row 0 reversed"})
     ctx.sample({"shape": [3, 3], "key": ["tuple", ["slice", None, None, -2], -1]})
